@@ -5,7 +5,7 @@
    (Python's re / str.lower on the concrete text).  Model/Peg.v interprets the table.
    All statements below are for EVERY table, text, oracle, fuel and both memoization settings. *)
 From TxV Require Import Core.Base Model.PegSyntax Model.Peg Model.KwDefs Gen.SrcKw Model.Kw
-     Proofs.PegCongr Proofs.KwProofs Proofs.KwCheckProofs Proofs.KwWitness.
+     Proofs.PegCongr Proofs.KwProofs Proofs.KwCheckProofs Proofs.KwWitness Proofs.KwStatements.
 
 (* (1) What visit_str_match / visit_re_match of the CURRENT source construct under ignore_case=True:
    every string literal (plain or keyword-like under autokwd) and every user regex gets the flag.
@@ -13,9 +13,7 @@ From TxV Require Import Core.Base Model.PegSyntax Model.Peg Model.KwDefs Gen.Src
 Theorem C20_compile : forall wordc digitc autokwd t pat,
   spec_icase (compile_lit wordc digitc autokwd true t) = true /\
   spec_icase (compile_regex true pat) = true.
-Proof.
-  intros. split; [apply compile_lit_icase; reflexivity | apply compile_regex_icase; reflexivity].
-Qed.
+Proof. exact stmt_C20_compile. Qed.
 Print Assumptions C20_compile.
 
 (* (2) Terminal congruence: two texts on which every terminal of the table answers alike at every
@@ -58,9 +56,7 @@ Theorem C20_literals_case_blind : forall lower wordc t s s' p,
   case_variant lower s s' ->
   str_match lower true t s' p = str_match lower true t s p /\
   (word_lower lower wordc -> kw_match wordc lower true t s' p = kw_match wordc lower true t s p).
-Proof.
-  intros lower wordc t s s' p H. split; [apply str_match_blind, H | intro Hw; apply kw_match_blind; assumption].
-Qed.
+Proof. exact stmt_C20_literals_case_blind. Qed.
 Print Assumptions C20_literals_case_blind.
 
 (* (5) Values: a regex terminal (ID, user regex, keyword regex) yields the slice of the text at its
@@ -70,7 +66,7 @@ Theorem C20_values_keep_case : forall lower s s' p len,
   case_variant lower s s' ->
   case_variant lower (slice s p len) (slice s' p len) /\
   ((forall i, p <= i < p + len -> nth_error s' i = nth_error s i) -> slice s' p len = slice s p len).
-Proof. intros lower s s' p len H. split; [apply slice_case_variant, H | apply slice_unchanged]. Qed.
+Proof. exact stmt_C20_values_keep_case. Qed.
 Print Assumptions C20_values_keep_case.
 
 (* (6) Outside the hypothesis of (3) the statement fails: BOOL is a built-in whose regex is case
@@ -82,10 +78,7 @@ Theorem C20_refuted_case_sensitive_builtin :
     all_str_icase g = true /\ case_variant ascii_lower s s' /\
     accepted (run g cfg (orc_of tbl) false 50 s) = true /\
     run g cfg (orc_of tbl') false 50 s' = SyntaxErr 5.
-Proof.
-  exists g_bool, cfg_default, tbl_bool1, tbl_bool2, in_bool1, in_bool2.
-  destruct bool_refuted as [H1 [H2 [_ [_ [_ [H3 H4]]]]]]. repeat split; assumption.
-Qed.
+Proof. exact stmt_C20_refuted_case_sensitive_builtin. Qed.
 Print Assumptions C20_refuted_case_sensitive_builtin.
 
 (* non-vacuity of (2)/(3): `Model: 'begin' name=ID 'end';`, "begin x end" vs "BEGIN x End" *)
@@ -94,16 +87,12 @@ Example C20_nonvacuous :
   run g_begin cfg_default (orc_of tbl_begin) false 50 in_begin2
   = run g_begin cfg_default (orc_of tbl_begin) false 50 in_begin1 /\
   accepted (run g_begin cfg_default (orc_of tbl_begin) false 50 in_begin1) = true.
-Proof.
-  destruct begin_hyps as [Hne [Hall [Hcv [Hws Hacc]]]]. split; [exact Hne|]. split; [|exact Hacc].
-  apply (C20_invariant ascii_lower g_begin cfg_default (fun _ => orc_of tbl_begin) false 50 in_begin1 in_begin2 Hall);
-    [intros nid nd o _ _ s s' _ p; reflexivity | exact Hcv | exact Hws].
-Qed.
+Proof. exact stmt_C20_nonvacuous. Qed.
 Print Assumptions C20_nonvacuous.
 
 Example C20_check_nonvacuous :
   c20_hyp_b ascii_lower g_begin cfg_default tbl_begin tbl_begin in_begin1 in_begin2 = true.
-Proof. vm_compute. reflexivity. Qed.
+Proof. exact stmt_C20_check_nonvacuous. Qed.
 Print Assumptions C20_check_nonvacuous.
 
 Example C20_literals_nonvacuous :
@@ -111,5 +100,5 @@ Example C20_literals_nonvacuous :
   str_match ascii_lower false [105;102]%N [73;70;32;120]%N 0 = None /\
   kw_match ascii_word ascii_lower true [105;102]%N [73;70;32;120]%N 0 = Some 2 /\
   kw_match ascii_word ascii_lower true [105;102]%N [73;70;120]%N 0 = None.
-Proof. vm_compute. repeat split. Qed.
+Proof. exact stmt_C20_literals_nonvacuous. Qed.
 Print Assumptions C20_literals_nonvacuous.
